@@ -210,7 +210,7 @@ def rebuild(a: Atom) -> Poly:
         return sshift(a[1], a[2])
     if k == "shr":
         return shr(a[1], a[2])
-    if k == "call" and a[1] in ("floordiv", "div", "mod"):
+    if k == "call" and a[1] in ("floordiv", "div", "mod", "max", "min"):
         return call(a[1], *a[2])
     return Poly.atom(a)
 
@@ -253,6 +253,8 @@ def mod8(x: Poly) -> Poly:
 
 
 def vmin(args: List[Poly]) -> Poly:
+    if args and all(a.const_value() is not None for a in args):
+        return C(min(a.const_value() for a in args))  # type: ignore[type-var]
     flat: List[Poly] = []
     for a in args:
         if len(a.terms) == 1:
@@ -345,6 +347,9 @@ def sshift(x: Poly, k: Poly) -> Poly:
 
 
 def call(name: str, *args: Poly) -> Poly:
+    if name in ("max", "min") and args and all(a.const_value() is not None for a in args):
+        vals = [a.const_value() for a in args]
+        return C(max(vals) if name == "max" else min(vals))  # type: ignore[type-var]
     if name in ("floordiv", "div", "mod") and len(args) == 2:
         a, b = args[0].const_value(), args[1].const_value()
         if a is not None and b is not None and b != 0:
